@@ -329,7 +329,7 @@ pub fn make_spec_for(id: &str, text: &str, optimised: bool) -> Option<Spec> {
 
 pub const HAND_WRITTEN: [&str; 3] = [
     // mentions under nested options / choices / repetitions / predicates / PUSH, repeated
-    "x = { 'a'..'c' }\ny = @{ 'd'..'f' }\nz = _{ x | \"(\" ~ y ~ \")\" }\nopt = { x? ~ y }\noptopt = { (x?)? ~ (y | x)? ~ \"!\" }\nrep = { x* ~ (y ~ x)* }\nrepopt = { (x? ~ \",\")* }\ntwice = { x ~ y ~ x }\nnested = { (x ~ (y ~ x)?)+ ~ z }\nalt = { x ~ y | y ~ x | z }\naltopt = { (x | y)? ~ (y | \"-\")? }\npreds = { &x ~ !y ~ x ~ &(y ~ x) ~ y }\npush = ${ PUSH(x) ~ y ~ POP }\nsil = { z ~ z? ~ (z ~ \",\")* }\nbuiltins = { ANY ~ ASCII_DIGIT* ~ (NEWLINE | SOI)? ~ ASCII_ALPHA }\ntail = { x ~ EOI }\nWHITESPACE = _{ \" \" }",
+    "x = { 'a'..'c' }\ny = @{ 'd'..'f' }\nz = _{ x | \"(\" ~ y ~ \")\" }\nopt = { x? ~ y }\noptopt = { (x?)? ~ (y | x)? ~ \"!\" }\nrep = { x* ~ (y ~ x)* }\nrepopt = { (x? ~ \",\")* }\ntwice = { x ~ y ~ x }\nnested = { (x ~ (y ~ x)?)+ ~ z }\nalt = { x ~ y | y ~ x | z }\naltopt = { (x | y)? ~ (y | \"-\")? }\npreds = { &x ~ !y ~ x ~ &(y ~ x) ~ y }\npush = ${ PUSH(x) ~ y ~ POP }\nsil = { z ~ z? ~ (z ~ \",\")* }\nbuiltins = { ANY ~ ASCII_DIGIT* ~ (NEWLINE | SOI)? ~ ASCII_ALPHA }\ntail = { x ~ EOI }\ndeep3 = { \"<\" ~ (x ~ (y ~ (x ~ y?)?)?)? ~ \">\" }\ndeep4 = ${ y ~ (\".\" ~ y ~ (\"e\" ~ (x | y)? ~ y)?)? }\nWHITESPACE = _{ \" \" }",
     "k = { \"k\" }\nv = { ASCII_DIGIT+ }\npair = { k ~ \"=\" ~ v }\nlist = { pair ~ (\",\" ~ pair)* }\nmaybe = { (list | pair | k)? ~ \";\" }\ndeep = { ((k ~ v?)* ~ (pair | k ~ k))+ }\nmix = { (k | v)* ~ (k ~ v | v ~ k)? }\ncmp = ${ k ~ (v | k)* }\nnon = !{ k ~ v ~ k }\nW = _{ \" \" }",
     "a = { \"a\" ~ b? }\nb = { \"b\" ~ (a | c)* }\nc = { \"c\" ~ (&a ~ a | !a ~ b)? }\nd = { (a ~ b ~ c | c ~ b ~ a | b)+ }\ne = { PUSH(a) ~ (PEEK | b) ~ DROP }\nCOMMENT = _{ \"#\" }",
 ];
